@@ -1190,6 +1190,12 @@ func (l *Ledger) VerifyBlock(block *pb.InternalBlock, logid string) (bool, error
 		return false, nil
 	}
 
+	// the id covers TxCount, not the body: a body padded with copies of its tail has the same merkle root
+	if int(block.TxCount) != len(block.Transactions) {
+		l.xlog.Warn("VerifyBlock tx count error", "logid", logid, "txCount", block.TxCount,
+			"transactions", len(block.Transactions))
+		return false, nil
+	}
 	errv := VerifyMerkle(block)
 	if errv != nil {
 		l.xlog.Warn("VerifyMerkle error", "logid", logid, "error", errv)
